@@ -249,7 +249,8 @@ func (obj SparseConstFloat32Vector) ITERATOR() *SparseConstFloat32VectorIterator
   return &r
 }
 func (obj SparseConstFloat32Vector) ITERATOR_FROM(i int) *SparseConstFloat32VectorIterator {
-  k := 0
+  // no entry at or behind position i: the iterator is exhausted
+  k := len(obj.indices)
   for j, idx := range obj.indices {
     if idx >= i {
       k = j
